@@ -66,10 +66,26 @@ const SNIPPETS: &[(&str, &str)] = &[
     ("assign_undefined_global_in_fiber", "Fiber.new(|| { ug3 = \"leak\"; }).call();\n"),
     ("var_with_failing_initialiser", "var ug4 = [][3];\n"),
     ("probe_never_defined_globals", "try { print(ug1); } catch e { print(type(e)); }\ntry { print(ug2); } catch e { print(type(e)); }\ntry { print(ug3); } catch e { print(type(e)); }\ntry { print(ug4); } catch e { print(type(e)); }\ntry { print(Bad); } catch e { print(type(e)); }\ntry { ug1 = 1; } catch e { print(type(e)); }\n"),
+    ("probe_every_built_in_name", CENSUS),
     ("import_m", "import \"m\";\nprint(m.v);\n"),
     ("bump_m", "m.v = m.v + 1;\nprint(m.v);\n"),
     ("reset", "\u{0}reset"),
 ];
+
+/// one line per name the interpreter defines before a program runs (also after a reset, also after failed
+/// snippets): its value, or "missing <name>"
+const CENSUS: &str = "try { print(clock); } catch e { print(\"missing clock\"); }\ntry { print(type); } catch e { print(\"missing type\"); }\ntry { print(print); } catch e { print(\"missing print\"); }\ntry { print(Type); } catch e { print(\"missing Type\"); }\ntry { print(Object); } catch e { print(\"missing Object\"); }\ntry { print(Nil); } catch e { print(\"missing Nil\"); }\ntry { print(Bool); } catch e { print(\"missing Bool\"); }\ntry { print(Num); } catch e { print(\"missing Num\"); }\ntry { print(Func); } catch e { print(\"missing Func\"); }\ntry { print(BuiltIn); } catch e { print(\"missing BuiltIn\"); }\ntry { print(Method); } catch e { print(\"missing Method\"); }\ntry { print(BuiltInMethod); } catch e { print(\"missing BuiltInMethod\"); }\ntry { print(String); } catch e { print(\"missing String\"); }\ntry { print(Iter); } catch e { print(\"missing Iter\"); }\ntry { print(Tuple); } catch e { print(\"missing Tuple\"); }\ntry { print(Vec); } catch e { print(\"missing Vec\"); }\ntry { print(Range); } catch e { print(\"missing Range\"); }\ntry { print(HashMap); } catch e { print(\"missing HashMap\"); }\ntry { print(Fiber); } catch e { print(\"missing Fiber\"); }\ntry { print(Error); } catch e { print(\"missing Error\"); }\ntry { print(StopIter); } catch e { print(\"missing StopIter\"); }\ntry { print(RuntimeError); } catch e { print(\"missing RuntimeError\"); }\ntry { print(AttributeError); } catch e { print(\"missing AttributeError\"); }\ntry { print(IndexError); } catch e { print(\"missing IndexError\"); }\ntry { print(ImportError); } catch e { print(\"missing ImportError\"); }\ntry { print(NameError); } catch e { print(\"missing NameError\"); }\ntry { print(TypeError); } catch e { print(\"missing TypeError\"); }\ntry { print(ValueError); } catch e { print(\"missing ValueError\"); }\ntry { print(MapIter); } catch e { print(\"missing MapIter\"); }\ntry { print(FilterIter); } catch e { print(\"missing FilterIter\"); }\n";
+
+fn census_lines() -> Vec<String> {
+    crate::c14::BUILTIN_NAMES
+        .iter()
+        .map(|n| match *n {
+            "clock" | "type" | "print" => format!("<built-in fn {}>", n),
+            "Bool" => "<class Boolean>".to_string(),
+            other => format!("<class {}>", other),
+        })
+        .collect()
+}
 
 /// the model: what a snippet prints, how it ends, and the state afterwards
 fn step(s: &St, name: &str) -> (St, Vec<String>, String) {
@@ -199,6 +215,7 @@ fn step(s: &St, name: &str) -> (St, Vec<String>, String) {
         "assign_undefined_global_in_fiber" => (n, vec![], name_err("ug3")),
         "var_with_failing_initialiser" => (n, vec![], "Unhandled IndexError".into()),
         "probe_never_defined_globals" => (n, vec!["<class NameError>".to_string(); 6], ok),
+        "probe_every_built_in_name" => (n, census_lines(), ok),
         "import_m" => {
             let mut out = Vec::new();
             if !s.m_loaded {
@@ -313,7 +330,7 @@ pub fn run(ctx: &Ctx) -> Report {
     expect::fill(
         &mut report,
         &stats,
-        "breadth-first search over histories of snippets fed to one interpreter, with canonical reference state (surviving globals, functions, classes, fiber objects, loaded modules); alphabet of 35 snippets: definitions and uses, a compile error, uncaught throws at top level / two calls deep / inside a fiber / inside try-finally / while a class is half-declared / from a built-in inside a method, clean try/finally, try/catch and class+loop probes, a fiber left suspended inside try/finally and resumed by a later snippet, probes of a fiber that died from an uncaught throw and of a chain of two such fibers (both must be finished), closures that escaped into globals from a call frame / a fiber discarded by an uncaught throw - the throwing one, and a fiber or a main-fiber frame that was waiting for it - and are called later (swept objects quarantined: any touch of freed memory is a violation), assignments to undefined globals that end the snippet (top level, in a call, in a fiber) and a `var` whose initialiser fails, with a probe that none of those names came into being, import and module mutation, reset. Every transition is replayed as the shortest history reaching its source state plus the snippet, on a fresh real interpreter; each snippet's printed lines and outcome must equal the model's; no snippet may panic. Because that search merges histories by model state, a second family runs every history up to length 3 (4) over the whole alphabet without merging, so that every snippet - in particular every failing one, which leaves the model state unchanged - is followed by every other.",
+        "breadth-first search over histories of snippets fed to one interpreter, with canonical reference state (surviving globals, functions, classes, fiber objects, loaded modules); alphabet of 36 snippets: definitions and uses, a compile error, uncaught throws at top level / two calls deep / inside a fiber / inside try-finally / while a class is half-declared / from a built-in inside a method, clean try/finally, try/catch and class+loop probes, a fiber left suspended inside try/finally and resumed by a later snippet, probes of a fiber that died from an uncaught throw and of a chain of two such fibers (both must be finished), closures that escaped into globals from a call frame / a fiber discarded by an uncaught throw - the throwing one, and a fiber or a main-fiber frame that was waiting for it - and are called later (swept objects quarantined: any touch of freed memory is a violation), assignments to undefined globals that end the snippet (top level, in a call, in a fiber) and a `var` whose initialiser fails, with a probe that none of those names came into being, import and module mutation, a probe of every one of the 30 built-in names, reset. Every transition is replayed as the shortest history reaching its source state plus the snippet, on a fresh real interpreter; each snippet's printed lines and outcome must equal the model's; no snippet may panic. Because that search merges histories by model state, a second family runs every history up to length 3 (4) over the whole alphabet without merging, so that every snippet - in particular every failing one, which leaves the model state unchanged - is followed by every other.",
         json!({"history_length": depth, "snippets": SNIPPETS.len()}),
     );
     report.cov("states", json!(states));
